@@ -114,6 +114,24 @@ def run(ctx: Ctx) -> None:
     ex = cb("expression", lambda: [tok("OPERAND", SStr.atom("X", free=True, excludes=frozenset("()\"'`")), "x")])
     ctx.check(ex.attrs.get("line") == lc("x")[0], "Q3", "expression keeps position", lt("expression"), "", "")
 
+    # ---- Q6 line accounting of the lexer ---------------------------------------------------------------
+    ctx.rule("Q6", "every terminal that can match a line break is one lark counts line breaks in (its pattern text shows a newline to lark), so tokens after it keep exact line numbers", 10)
+    import re as _re
+
+    G = e.G
+    for t in G.terms.values():
+        src = t.value if t.kind == "re" else _re.escape(t.value)
+        can = _can_match_newline(src, t.flags)
+        # lark.lexer._regexp_has_newline
+        r = t.value if t.kind == "re" else _re.escape(t.value)
+        if t.kind == "re" and t.flags:
+            r = "(?%s:%s)" % ("".join(sorted(t.flags)), r)
+        lark_counts = ("\n" in r) or ("\\n" in r) or ("\\s" in r) or ("[^" in r) or ("(?s" in r and "." in r)
+        if can:
+            ctx.check(lark_counts, "Q6", f"terminal {t.name}", "mappyfile/mapfile.lark", "line breaks inside it are counted", f"terminal {t.name} /{t.value}/ can match a line break but its pattern does not look like it to lark (no \\n, \\s, [^ or (?s .): line breaks inside such a token are not counted and every later position is off")
+        else:
+            ctx.ok("Q6", f"terminal {t.name}", "mappyfile/mapfile.lark", "cannot contain a line break", nontrivial=False)
+
     # ---- Q4 ------------------------------------------------------------------------------------------
     ctx.rule("Q4", "create_message reports the line / column recorded for the offending keyword, or the enclosing block's own position for object-level errors", 14)
     lcm = repo.loc("validator", repo.func("validator.Validator.create_message"))
@@ -147,3 +165,50 @@ def run(ctx: Ctx) -> None:
     good = any("str(LINE)" in m.describe() and "str(COL)" in m.describe() and m.describe().index("str(LINE)") < m.describe().index("str(COL)") and "<MSG>" in m.describe() and "<ERR>" in m.describe() and "Line" in m.describe() for m in msgs)
     ctx.check(good, "Q5", "cli.validate message line", repo.loc("cli", repo.func("cli.validate")), f"{[m.describe() for m in msgs][:1]}", f"the printed message does not carry file, line, column, message and error in that order: {[m.describe() for m in msgs]}")
     ctx.units["pai_paths"] = X.I.paths_run
+
+
+def _can_match_newline(pattern: str, flags) -> bool:
+    from ..grammar import sre_parse, sre_c
+    import re as _re
+
+    fl = 0
+    if "s" in flags:
+        fl |= _re.S
+    if "i" in flags:
+        fl |= _re.I
+    tree = sre_parse.parse(pattern, fl)
+    dotall = "s" in flags
+
+    def walk(items) -> bool:
+        for op, av in items:
+            if op is sre_c.LITERAL and av in (10, 13):
+                return True
+            if op is sre_c.NOT_LITERAL and av not in (10,):
+                return True
+            if op is sre_c.ANY and dotall:
+                return True
+            if op is sre_c.IN:
+                neg = any(o is sre_c.NEGATE for o, _ in av)
+                has_nl = False
+                for o, a in av:
+                    if o is sre_c.LITERAL and a == 10:
+                        has_nl = True
+                    elif o is sre_c.RANGE and a[0] <= 10 <= a[1]:
+                        has_nl = True
+                    elif o is sre_c.CATEGORY:
+                        nm = str(a)
+                        if "SPACE" in nm and "NOT" not in nm:
+                            has_nl = True
+                        if "NOT_WORD" in nm or "NOT_DIGIT" in nm:
+                            has_nl = True
+                if has_nl != neg:
+                    return True
+            if op in (sre_c.MAX_REPEAT, sre_c.MIN_REPEAT) and walk(av[2]):
+                return True
+            if op is sre_c.SUBPATTERN and walk(av[-1]):
+                return True
+            if op is sre_c.BRANCH and any(walk(alt) for alt in av[1]):
+                return True
+        return False
+
+    return walk(tree)
